@@ -135,6 +135,21 @@ def writeBufLine : List String → String
     | _, _ => "bad-op"
   | _ => "bad-op"
 
+/-- `gvar <ity> <sexpr>`: the object bits `static T x = E;` stores: storeGvar (descr T) (elabE E) (eval2 (elabE E)) -/
+def gvarLine : List String → String
+  | t :: toks =>
+    match ity? t, parse (toks.length + 1) toks with
+    | some t, some (e, []) =>
+      let n := elabE e
+      match eval2 .wrapping noFp n true with
+      | .error f => showFail f
+      | .ok v =>
+        match storeGvar noFp (descr t) n v with
+        | .ok b => toString b.toNat
+        | .error f => showFail f
+    | _, _ => "bad-op"
+  | _ => "bad-op"
+
 partial def loop (h : IO.FS.Stream) : IO UInt32 := do
   let line ← h.getLine
   if line.isEmpty then return 0
@@ -143,6 +158,7 @@ partial def loop (h : IO.FS.Stream) : IO UInt32 := do
   | [] => loop h
   | "eval" :: _ => IO.println (evalLine ((tokens line.trimAscii.toString).drop 1)); loop h
   | "store" :: rest => IO.println (storeLine rest); loop h
+  | "gvar" :: _ => IO.println (gvarLine ((tokens line.trimAscii.toString).drop 1)); loop h
   | "writebuf" :: rest => IO.println (writeBufLine rest); loop h
   | _ => IO.println "bad-op"; loop h
 
